@@ -249,7 +249,7 @@ def _call_function(kind, style, prov, sc, params, ret_src, body_raises, ns, defa
     # parameters without default first, then *args, then defaulted ones as keyword-only if *args is present
     plain = [x for x in parts if " = DEF_" not in x]
     dflt = [x for x in parts if " = DEF_" in x] + [f"{n}={lit}" for n, lit in defaults]
-    fwd = style == "fwd"
+    fwd = style in ("fwd", "fwdpos")   # (fwdpos: forward references AND a positional-only first half of the parameters)
     if fwd:
         # forward references: annotations are strings naming objects that do not exist yet at decoration time
         def late(x):
@@ -268,7 +268,7 @@ def _call_function(kind, style, prov, sc, params, ret_src, body_raises, ns, defa
     elif style == "kwonly" and nplain:
         # the second half of the hinted parameters is keyword-only (after a bare `*`)
         sig = ", ".join(plain[:kpos] + ["*"] + plain[kpos:] + dflt + vk)
-    elif style == "posonly" and nplain:
+    elif style in ("posonly", "fwdpos") and nplain:
         # the first half (at least one) is positional-only
         kpos = max(1, kpos)
         sig = ", ".join(plain[:kpos] + ["/"] + plain[kpos:] + dflt + vk)
@@ -311,7 +311,7 @@ def _call_function(kind, style, prov, sc, params, ret_src, body_raises, ns, defa
         # the method called through the class, every argument — the receiver included — by keyword
         F = ns["K"].f
         args, kwargs = (), {"self": ns["INST"], **dict(zip(pn, pv))}
-    elif style in ("kwonly", "posonly") and pn:
+    elif style in ("kwonly", "posonly", "fwdpos") and pn:
         args, kwargs = tuple(pv[:kpos]), dict(zip(pn[kpos:], pv[kpos:]))
     elif style == "kw":
         args, kwargs = (), dict(zip(pn, pv))
